@@ -29,6 +29,9 @@ ASSUMPTIONS = [
     "'the checksum the envelope declares' = what EnvelopeChecksum yields (checksum_alg none declares none; DESIGN section 5)",
     "algorithm names, digests and mode strings are ASCII in the correspondence stream (TrimSpace/ToLower modelled on ASCII)",
     "S3 body = bytes then EOF or one read error; no partial-read interleavings (io.LimitReader semantics trusted)",
+    "download requests are independent in the model (the decision is a function of the request and its own object; the request id is "
+    "not an input): VALIDATED by `cdl` ops — 2-4 overlapping downloads through the real handler with shared / duplicate X-Request-ID "
+    "values, parked in the S3 fake right before EOF and released in a scheduled order; every sequential download also carries an X-Request-ID from a small pool",
 ]
 
 
@@ -196,16 +199,73 @@ def gen_download(rng):
     shastr = {"ok": declared_sha, "upper": declared_sha.upper(), "spaces": b"  " + declared_sha + b"\n", "short": declared_sha[:63],
               "long": declared_sha + b"0", "nonhex": declared_sha[:10] + b"g" + declared_sha[11:], "empty": b"", "blank": b"   ",
               "other": hashlib.sha256(b"x" + content).hexdigest().encode()}[sv]
-    op = ["download", presign, str(max_blob), hexs(mode), integ, hexs(shastr), hexs(alg), str(size), objk, hexs(obj)]
+    rid = rng.choice(RIDS) if not rng.chance(1, 5) else b"req-" + rng.bytes(4).hex().encode()     # X-Request-ID: small pool => often repeated
+    op = ["download", presign, str(max_blob), hexs(mode), integ, hexs(shastr), hexs(alg), str(size), objk, hexs(obj), "rid=" + hexs(rid)]
     blobs = [obj]
     if 0 <= size < 1000:
         blobs.append(obj[:size + 1])
     return " ".join(op) + table(blobs), {"sha": shastr, "size": size, "kind": okind, "obj": obj}
 
 
+RIDS = [b"req-1", b"req-2", b"00000000-0000-4000-8000-000000000001", b"trace.A_b-9"]
+
+
+def gen_cdl(rng):
+    """2-4 overlapping stream downloads through the real handler, request ids mostly shared, objects good / tampered / short /
+    extended; every download has its own key, envelope digest and size.  The schedule is (start order = index, release order)."""
+    n = rng.range(2, 4)
+    shared = rng.choice(RIDS)
+    length = rng.choice([2, 7, 32, 33, 60])
+    f, blobs, metas = [], [], []
+    for i in range(n):
+        content = rng.bytes(length if not rng.chance(1, 4) else rng.choice([3, 20, 61]))
+        kind = rng.choice(["good", "good", "tampered", "tampered", "short", "extended", "other-same-length"])
+        obj = content
+        if kind == "tampered":
+            j = rng.below(len(content)); obj = content[:j] + bytes([content[j] ^ 0x20]) + content[j + 1:]
+        elif kind == "short":
+            obj = content[:rng.below(len(content))]
+        elif kind == "extended":
+            obj = content + rng.bytes(2)
+        elif kind == "other-same-length":
+            obj = rng.bytes(len(content))
+        rid = shared if not rng.chance(1, 5) else rng.choice([b"", b"uniq-%d" % i])
+        sha = hashlib.sha256(content).hexdigest().encode()
+        f += [hexs(rid), hexs(sha), str(len(content)), hexs(obj)]
+        blobs += [obj, obj[:len(content) + 1]]
+        metas.append({"sha": sha, "size": len(content), "kind": kind})
+    order = list(range(n))
+    for i in range(n - 1, 0, -1):
+        j = rng.below(i + 1); order[i], order[j] = order[j], order[i]
+    op = "cdl %d %s %s" % (n, ",".join(map(str, order)), " ".join(f))
+    return op + table(blobs), {"kind": "cdl", "downloads": metas}
+
+
+def monitor_cdl(op, out):
+    f = op.split(" | ")[0].split()
+    n = int(f[1])
+    res = out.split()[1:]
+    if not out.startswith("cdl ") or len(res) != n:
+        return "concurrent-download-harness", "unexpected outcome " + out[:120]
+    for i, r in enumerate(res):
+        sha = bytes.fromhex(f[3 + 4 * i + 1]); size = int(f[3 + 4 * i + 2])
+        if r == "hung":
+            return "concurrent-download-hangs", "download %d of %d overlapping downloads never finished" % (i, n)
+        if r.startswith("bytes:"):
+            body = b"" if r[6:] == "-" else bytes.fromhex(r[6:])
+            if hashlib.sha256(body).hexdigest().encode() != sha or len(body) != size:
+                same = len({f[3 + 4 * k] for k in range(n)}) < n
+                return ("concurrent-download-serves-other-bytes",
+                        "download %d of %d overlapping downloads (%s X-Request-ID) was answered 200 with %d bytes that do not match ITS OWN "
+                        "integrity.sha256/size (%d)" % (i, n, "shared" if same else "distinct", len(body), size))
+    return None
+
+
 def monitor(op, out):
     """The property itself on one implementation line.  Returns (fingerprint, what) or None."""
     f = op.split(" | ")[0].split()
+    if f[0] == "cdl":
+        return monitor_cdl(op, out)
     if f[0] == "download":
         if out.startswith("bytes "):
             body = b"" if out.split()[1] == "-" else bytes.fromhex(out.split()[1])
@@ -272,11 +332,14 @@ def evaluate(ck, binary, ops, metas):
         io = impl[i]
         kind = op.split()[0]
         meta = metas[i] if metas else {}
-        outc = io.split()[0] + (" " + io.split()[1] if io.startswith("status") else "")
+        outc = "" if kind == "cdl" else io.split()[0] + (" " + io.split()[1] if io.startswith("status") else "")
         ck.count("%s:%s" % (kind, outc))
         if meta.get("kind"):
             ck.count("%s-storage:%s" % (kind, meta["kind"]))
-        nontrivial = io.startswith(("ok", "bytes", "err", "status 502"))
+        nontrivial = io.startswith(("ok", "bytes", "err", "status 502")) or (kind == "cdl" and "bytes:" in io)
+        if kind == "cdl":
+            for r in io.split()[1:]:
+                ck.count("cdl-answer:" + r.split(":")[0] + (":" + r.split(":")[1] if r.startswith("status") else ""))
         ck.case(op, nontrivial=nontrivial, sample={"op": op[:200], "impl": io[:120]})
         ck.cov["traces_validated_against_impl"] += 1
         mon = monitor(op, io)
@@ -298,6 +361,15 @@ def run(ck):
                       "for Resolve and Unwrap, and download requests (mode, integrity sha/alg/size variants, maxBlob) x object behaviour; "
                       "non-trivial = the storage was consulted (ok / err / bytes / 502); distinct = distinct op lines")
     ops, metas = list(CORPUS), [{"kind": "corpus"}, {"kind": "corpus"}]
+    # deterministic corpus: A good, B tampered (same length), same request id; both release orders
+    a, b = b"AAAAAAAAAAAAAAAAAAAAAAAAAAAAAAAA", b"BBBBBBBBBBBBBBBBBBBBBBBBBBBBBBBB"
+    sa, sb = hashlib.sha256(a).hexdigest().encode(), hashlib.sha256(b"C" * 32).hexdigest().encode()
+    for order in ("1,0", "0,1"):
+        ops.append("cdl 2 %s %s %s 32 %s %s %s 32 %s" % (order, hexs(b"req-1"), hexs(sa), hexs(a), hexs(b"req-1"), hexs(sb), hexs(b)) + table([a, b]))
+        metas.append({"kind": "cdl-corpus"})
+    for _ in range(60 if ck.quick() else 1500):
+        op, meta = gen_cdl(ck.rng)
+        ops.append(op); metas.append(meta)
     for _ in range(n):
         c = ck.rng.below(3)
         if c == 0:
